@@ -7,6 +7,7 @@ def pauliDispatch : Dispatch := fun op j =>
   | "ps.mul" => some (Pauli.opMul j)
   | "ps.commutes" => some (Pauli.opCommutes j)
   | "ps.herm" => some (Pauli.opHerm j)
+  | "wps.flags" => some (Pauli.opWpsFlags j)
   | "ps.str" => some (Pauli.opStr j)
   | "ps.parse" => some (Pauli.opParse j)
   | "ps.refactor" => some (Pauli.opRefactor j)
